@@ -93,9 +93,6 @@ TailSlack(s) == LET fr == Frames(s, 1) IN Len(fr) > 0 /\ fr[Len(fr)].kind = "par
 (* coming back from GET as the identical byte range (trailing white space of the line excluded). *)
 Conforms(s, resp) == resp = Expected(s) \/ (TailSlack(s) /\ resp = Expected(s) \o <<Err>>)
 
-(* some frame announces an oversized length and at least one byte of its body follows *)
-HasOversized(s) == \E i \in 1 .. Len(Frames(s, 1)) : LET x == Frames(s, 1)[i] IN x.n > MaxFrame /\ x.hi >= x.lo
-
 (* ---------------- layer B: the server loop of client.rs ---------------- *)
 VARIABLES stream,   \* what the client sends, then EOF
           pos,      \* next unread position of the socket
